@@ -106,6 +106,6 @@ Theorem C09gen_inputs_untouched :
 Proof. exact (conj alias_completion_res (conj alias_completion_irr (conj alias_increase_res alias_increase_irr))). Qed.
 Print Assumptions C09gen_inputs_untouched.
 
-Theorem C09gen_all_translated : gen_ctrl_untranslated = [].
+Theorem C09gen_all_translated : gen_untranslated_exhaustion = [].
 Proof. exact ctrl_all_translated. Qed.
 Print Assumptions C09gen_all_translated.
